@@ -730,6 +730,32 @@ impl Sim<'_, '_> {
         if !op.plural && plan.decisions.iter().any(|d| matches!(d, SettlementDecision::PluralAlternative(_))) {
             bail!("plural_decision_under_refusing_policy", "op#{oi}: {:?}", plan.decisions);
         }
+        // The plural policy decides *how* a contended entry is retained (plural alternative instead of
+        // conflict artifact), never *what* reaches the parent: both policies must import the same
+        // entries from the same state.
+        {
+            let other = if op.plural { SettlementPolicy::default() } else { SettlementPolicy::allow_plural_over_footprint_overlap([0x5A; 32]) };
+            let w = &self.w;
+            match catch(|| SettlementService::plan_with_policy(&w.runtime, &w.provenance, sid, &other)) {
+                Err(p) => bail!("settlement_panicked", "op#{oi}: plan under the other policy: {p}"),
+                Ok(Err(_)) => self.ctx.hit("reach.other_policy_plan_refused"),
+                Ok(Ok(o)) => {
+                    let imports = |p: &SettlementPlan| -> Vec<_> {
+                        p.decisions.iter().filter_map(|d| if let SettlementDecision::ImportCandidate(c) = d { Some(c.source_ref) } else { None }).collect()
+                    };
+                    if imports(&plan) != imports(&o) {
+                        bail!("policies_disagree_on_imports", "op#{oi}: the plural and the default policy import different entries from the same state:\n{:?}\n{:?}", plan.decisions, o.decisions);
+                    }
+                    self.ctx.hit("reach.both_policies_planned");
+                    if plan.decisions.len() >= 2 && plan.decisions.iter().any(|d| matches!(d, SettlementDecision::PluralAlternative(_))) {
+                        self.ctx.hit("reach.plural_decision_in_multi_entry_suffix");
+                    }
+                }
+            }
+            if let Some(d) = snap.changed(&self.w) {
+                bail!(format!("plan_has_side_effects:{d}"), "op#{oi}: plan under the other policy changed {d}");
+            }
+        }
 
         // ---- facts before execution
         let Some(pre_abs) = self.abs_wl(parent_wl) else { bail!("internal", "parent missing") };
